@@ -155,3 +155,33 @@ def erase_keyoff_obligations(facts, rule):
     if n < 3:
         raise build.AnalysisBroken('%s: only %d users.erase sites found' % (rule, n))
     return obls
+
+
+def key_release_calls(fn, node, upd_off):
+    """calls inside `node` that release one key of one MIDI channel: (call, key argument, immediate?)
+         noteOff(chan, key[, forceNow]) / realTime_NoteOff(chan, key) / rt_noteOff.. hooks (.., chan, key[, vel])
+         noteUpdate(chan, it, Upd_Off) with `it` a local initialised from find_activenote(key): what noteOff(.., true) does itself"""
+    inits = {}
+    for x in walk(fn.tree):
+        if isinstance(x, dict) and x.get('k') == 'DeclStmt':
+            for v in x.get('decls', []):
+                if v.get('init') is not None:
+                    inits[v['id']] = v['init']
+    for x in walk(node):
+        if not isinstance(x, dict) or not ('callee' in x or 'callee_e' in x):
+            continue
+        sn = short(callee_name(x))
+        args = x.get('a', [])
+        hook = x.get('callee_e') is not None and mentions(x['callee_e'], lambda y: y.get('k') == 'MemberExpr' and short(y['n']) in ('rt_noteOff', 'rt_noteOffVel'))
+        if (sn in ('noteOff', 'realTime_NoteOff', 'rt_noteOff', 'rt_noteOffVel') or hook) and len(args) >= 2 and not callee_name(x).startswith('OPN2::'):
+            forced = (const_of(args[2]) == 1) if (sn == 'noteOff' and len(args) >= 3) else False
+            yield x, args[1:], forced
+        itarg = strip(args[1]) if len(args) >= 2 else {}
+        while itarg.get('k') == 'CXXConstructExpr' and len(itarg.get('a', [])) == 1:      # the iterator is passed by value
+            itarg = strip(itarg['a'][0])
+        if sn == 'noteUpdate' and len(args) >= 3 and const_of(args[2]) == upd_off and itarg.get('k') == 'DeclRefExpr':
+            it0 = inits.get(itarg.get('id'))
+            fa = [y for y in calls_in(it0)] if it0 is not None else []
+            fa = [y for y in fa if short(callee_name(y)) == 'find_activenote' and y.get('a')]
+            if fa:
+                yield x, fa[0]['a'][:1], True
